@@ -86,11 +86,13 @@ def index_of(g, v):
 # the C05 predicate
 # ----------------------------------------------------------------------------------------------
 
-def c05_check(case, out, bent=False, unwrap=False):
+def c05_check(case, out, bent=False, unwrap=False, skip_ill=False):
     """-> list of discrepancy strings.  bent / unwrap are the two relaxations used ONLY to classify a failure:
     bent   = antimeridian met at the start latitude (FC05a as coded),
     unwrap = a reported coordinate equal to the LAST grid line (never the origin of a cell) is read as the FIRST
-             line (what index -1 wrapped around from, F20)."""
+             line (what index -1 wrapped around from, F20),
+    skip_ill = the horizontal cells of a segment that straddles a grid line with a coordinate change of at most
+             1e-13 rad (a few ulp) are not checked (catastrophic cancellation in slope * line + intercept, FC04d/FC05c)."""
     probs = []
     nseg = len(case['lats']) - 1
     L = len(out['lat'])
@@ -148,6 +150,8 @@ def c05_check(case, out, bent=False, unwrap=False):
                                  f'{key} {case[vk][j]!r} lies in cell(s) {sorted(allow)} of the {key} grid')
                     break
         # -- horizontal cells
+        if skip_ill and ill_segment(case, j):
+            continue
         cells = []
         for p in blk:
             ia = index_of(glat, norm(glat, out['lat'][p]))
@@ -182,13 +186,14 @@ def c05_check(case, out, bent=False, unwrap=False):
         for pc in pieces:
             iv_or.append((acc, acc + pc['share']))
             acc += pc['share']
-        if abs(tot_impl - acc) > TOL_SHARE:
+        tol = TOL_SHARE + c04.conditioning(case, j, bent)
+        if abs(tot_impl - acc) > tol:
             probs.append(f'segment {j}: shares add up to {tot_impl!r}, the pieces of the map line measure {acc!r}')
             continue
         for (a0, a1), (ia, ib), p in zip(iv_impl, cells, blk):
             for (b0, b1), pc in zip(iv_or, pieces):
                 ov = min(a1, b1) - max(a0, b0)
-                if ov > TOL_SHARE and (ia not in pc['allow'][0] or ib not in pc['allow'][1]):
+                if ov > tol and (ia not in pc['allow'][0] or ib not in pc['allow'][1]):
                     probs.append(
                         f'segment {j} piece at {p}: share [{a0:.9f},{a1:.9f}] of the segment is attributed to cell '
                         f'index ({ia},{ib}) but that part of the map line lies in lat cell(s) {sorted(pc["allow"][0])} '
@@ -221,7 +226,14 @@ def c05_oracle(case, out):
                 why = strict if not unwrap else c05_check(case, out, unwrap=True)
                 res.append(('[FC05a] ' + why[0], SIG_DL))
             return res
+    if not c05_check(case, out, skip_ill=True):
+        return [('[FC05c] ' + strict[0], c04.SIG_ILL)]
     return [(strict[0] + more, None)]
+
+
+def ill_segment(case, j):
+    d = [abs(case[k][j + 1] - case[k][j]) for k in ('lats', 'lons')]
+    return any(0 < x <= 1e-13 for x in d) and c04.conditioning(case, j) > 1e-3
 
 
 # ----------------------------------------------------------------------------------------------
